@@ -232,8 +232,27 @@ fn end_to_end(ctx: &Ctx, sink: &mut Sink, n: usize, rng: &mut Rng) {
     }
 }
 
+/// every spelling of the `-d` operand through the real binary: the byte it names is the one the
+/// input is split at, and no other
+fn delimiter_spellings(ctx: &Ctx, sink: &mut Sink) {
+    let input: Vec<u8> = b"p\x07q\x08r\x09s\x0bt\x0cu\rv\\wAx,y\nz wk".to_vec();
+    let table: [(&str, u8); 13] = [("\\n", b'\n'), ("\\t", b'\t'), ("\\r", b'\r'), ("\\a", 7), ("\\b", 8), ("\\f", 12), ("\\v", 11),
+        ("\\\\", b'\\'), ("\\x41", 0x41), ("\\0101", 0x41), (",", b','), ("\\x0c", 12), ("\\013", 11)];
+    for (sp, d) in table {
+        let r = crate::recorder::run_xargs(ctx, &["-d", sp], &[], &input, &[]);
+        let all: Vec<Vec<u8>> = r.invocations.iter().flat_map(|inv| inv.argv[1..].to_vec()).collect();
+        let imp = if r.status == 0 { format!("ok {}", hex_list(&all)) } else if r.status == 1 { "err".to_string() } else { format!("status{} {}", r.status, hex_list(&all)) };
+        let whole = vec![input.clone()];
+        let mut tags = tags_for(&input, &whole, &imp);
+        tags.push("binary");
+        tags.push("delimiter-spelling");
+        sink.push(Case { req: format!("bd-args {} {}", d, hex_list(&whole)), imp, tags });
+    }
+}
+
 pub fn run_prop(ctx: &Ctx, sink: &mut Sink) {
     let mut rng = Rng::new(ctx.seed).fork(5);
+    delimiter_spellings(ctx, sink);
     let (maxlen, nrand, nbin) = if ctx.thorough { (6, 60_000, 1500) } else { (5, 4_000, 150) };
     // corpus-like fixed cases first
     for (delim, chunks) in [
